@@ -2,6 +2,7 @@ package l1
 
 import (
 	"fmt"
+	"sort"
 	"time"
 
 	"github.com/btcsuite/btcd/chainhash/v2"
@@ -112,12 +113,22 @@ func FilterPlanFromSeed(seed int64, idx int, class int) FilterPlan {
 func RunFilterSession(plan FilterPlan, onStep func(fs *FilterSession, st *StepObs),
 	onStoreErr func(fs *FilterSession, st *StepObs, err error)) (*FilterSession, error) {
 
+	return runFilterSession(plan, onStep, onStoreErr, nil)
+}
+
+// runFilterSession is RunFilterSession with an optional gate through which
+// the installation of the hard-coded filter checkpoints goes (nil: installed
+// on the spot and removed at the end).
+func runFilterSession(plan FilterPlan, onStep func(fs *FilterSession, st *StepObs),
+	onStoreErr func(fs *FilterSession, st *StepObs, err error),
+	gate func(install func())) (*FilterSession, error) {
+
 	s, err := NewSession(plan.SessionConfig)
 	if err != nil {
 		return nil, err
 	}
 	fs := &FilterSession{Session: s, Plan: plan, Liars: map[string]*netsim.Liar{},
-		Behav: map[string]PeerBehaviour{}, OnStep: onStep}
+		Behav: map[string]PeerBehaviour{}, OnStep: onStep, gate: gate}
 	g := s.G
 	fs.Trunk = g.Extend(g.Genesis, plan.ChainLen, chaingen.PaceNormal)
 	tip := fs.Trunk[len(fs.Trunk)-1]
@@ -132,7 +143,11 @@ func RunFilterSession(plan FilterPlan, onStep func(fs *FilterSession, st *StepOb
 		}
 		fs.Behav[p.Addr] = b
 		if len(b.Lies) > 0 {
-			l := netsim.NewLiar(plan.Seed+int64(i), b.Lies...)
+			ls := plan.Seed + int64(i)
+			if b.LiarSeed != 0 {
+				ls = b.LiarSeed
+			}
+			l := netsim.NewLiar(ls, b.Lies...)
 			fs.Liars[p.Addr] = l
 			p.Rec.Mutate = l.Mutate
 		}
@@ -298,7 +313,8 @@ func (fs *FilterSession) Provable() bool {
 			honest = true
 		}
 		for _, l := range b.Lies {
-			ok := false
+			// A modifier of the peer's other lies, not a lie of its own.
+			ok := l.Kind == netsim.LieRejoin
 			for _, k := range netsim.ProvableLies {
 				if l.Kind == k {
 					ok = true
@@ -310,6 +326,72 @@ func (fs *FilterSession) Provable() bool {
 		}
 	}
 	return honest
+}
+
+// ProvableGivenCheckpoints is Provable, with one more kind of lie counted as
+// provable: one that shows as a checkpoint-list entry contradicting a (true)
+// hard-coded filter-header checkpoint of this session. (Every session starts
+// with the filter headers at least one checkpoint interval behind, so such a
+// peer's list is examined before any of its filter headers is.)
+func (fs *FilterSession) ProvableGivenCheckpoints() bool {
+	if fs.Provable() {
+		return true
+	}
+	if len(fs.Plan.FilterCPs) == 0 || fs.Plan.FalseCP {
+		return false
+	}
+	honest := false
+	for _, b := range fs.Plan.Behaviours {
+		if b.Honest() {
+			honest = true
+		}
+		rejoin := int32(0)
+		for _, l := range b.Lies {
+			if l.Kind == netsim.LieRejoin {
+				rejoin = l.Height
+			}
+		}
+		for _, l := range b.Lies {
+			ok := l.Kind == netsim.LieRejoin
+			for _, k := range netsim.ProvableLies {
+				if l.Kind == k {
+					ok = true
+				}
+			}
+			for _, h := range fs.Plan.FilterCPs {
+				switch {
+				case l.Kind == netsim.LieCheckpt && h == l.Height:
+					ok = true
+				case l.Kind == netsim.LieExtraElem && l.Height <= h && h < rejoin:
+					// The false filter hash sits at or below a hard-coded
+					// height at which the peer's list carries the header
+					// chained from it.
+					ok = true
+				}
+			}
+			if !ok {
+				return false
+			}
+		}
+	}
+	return honest
+}
+
+// cpsDescribeChain reports whether every hard-coded checkpoint at or below
+// the block tip still refers to the block on the stored chain. After a
+// reorganisation replaced a checkpointed block no peer can satisfy the
+// checkpoints any more (the client then refuses everybody, by design).
+func (fs *FilterSession) cpsDescribeChain(post []wire.BlockHeader) bool {
+	for _, cph := range fs.Plan.FilterCPs {
+		if int(cph) >= len(post) {
+			continue
+		}
+		nd := fs.G.Lookup(post[cph].BlockHash())
+		if nd == nil || int(cph) > len(fs.Trunk) || fs.Trunk[cph-1] != nd {
+			return false
+		}
+	}
+	return true
 }
 
 // CheckC03 checks the committed filter-header chain after a step.
@@ -330,7 +412,13 @@ func CheckC03(fs *FilterSession, st *StepObs, final bool) []Finding {
 		from = max(c, 1)
 	}
 	var served map[chainhash.Hash]map[chainhash.Hash]bool
-	prov := fs.Provable()
+	// Ground truth is what must be committed when an honest peer is present
+	// and every lie is provable; with hard-coded checkpoints installed, only
+	// while these are true and still describe the stored chain.
+	prov := fs.Provable() && len(fs.Plan.FilterCPs) == 0
+	if len(fs.Plan.FilterCPs) > 0 && !fs.Plan.FalseCP {
+		prov = fs.ProvableGivenCheckpoints() && fs.cpsDescribeChain(post)
+	}
 	for h := from; h < len(pf) && h < len(post); h++ {
 		bh := post[h].BlockHash()
 		nd := fs.G.Lookup(bh)
@@ -341,7 +429,7 @@ func CheckC03(fs *FilterSession, st *StepObs, final bool) []Finding {
 		if pf[h] == nd.FilterHeader {
 			continue
 		}
-		if prov && len(fs.Plan.FilterCPs) == 0 {
+		if prov {
 			out = append(out, Finding{"c03/false-header-committed/provable/" + kc,
 				fmt.Sprintf("committed filter header at height %d differs from the ground truth although every lie in this session is provable and an honest peer is present", h)})
 			break
@@ -376,6 +464,33 @@ func CheckC03(fs *FilterSession, st *StepObs, final bool) []Finding {
 			}
 		}
 	}
+	// A peer whose checkpoint list contradicts a hard-coded checkpoint is
+	// banned by the call the list was handed to.
+	if st.Kind == "cf.resolve" && len(fs.ResolveOffenders) > 0 {
+		addrs := make([]string, 0, len(fs.ResolveOffenders))
+		for a := range fs.ResolveOffenders {
+			addrs = append(addrs, a)
+		}
+		sort.Strings(addrs)
+		for _, a := range addrs {
+			if fs.Net.IsBanned(a) {
+				continue
+			}
+			o := fs.ResolveOffenders[a]
+			rel, who := "newest-covered-checkpoint-contradicted-too", "some-lists"
+			if o.NewestAgrees {
+				rel = "agrees-with-newest-covered-checkpoint"
+			}
+			switch {
+			case o.Lists == 1:
+				who = "only-list"
+			case o.Lists == len(fs.ResolveOffenders):
+				who = "all-lists"
+			}
+			out = append(out, Finding{"c03/checkpoint-contradicting-list-not-banned/" + rel + "/" + who,
+				fmt.Sprintf("peer %s served a filter-checkpoint list whose entry for height %d differs from the hard-coded filter-header checkpoint; the list was handed to resolveConflict (%d lists) and the peer is not banned afterwards", a, o.Lowest, o.Lists)})
+		}
+	}
 	// By-hash lookups: on-chain agree, off-chain (disconnected) blocks not found.
 	n := 0
 	for hsh, nd := range fs.Offered {
@@ -400,7 +515,7 @@ func CheckC03(fs *FilterSession, st *StepObs, final bool) []Finding {
 		// honest value is the one that gets committed, so the session (it
 		// ends after three rounds without progress) must not end with the
 		// filter headers behind the block headers.
-		if fs.Provable() && !fs.Plan.FalseCP && len(pf) < len(post) {
+		if fs.ProvableGivenCheckpoints() && !fs.Plan.FalseCP && fs.cpsDescribeChain(post) && len(pf) < len(post) {
 			h := len(pf)
 			who := ""
 			if nd := fs.G.Lookup(post[h].BlockHash()); nd != nil {
@@ -425,7 +540,7 @@ func (fs *FilterSession) checkBans(pf []chainhash.Hash, post []wire.BlockHeader)
 	var out []Finding
 	// With a hard-coded filter checkpoint that contradicts every peer, the
 	// client bans everybody by design: nothing is asserted about bans.
-	if !fs.Provable() || fs.Plan.FalseCP {
+	if !fs.ProvableGivenCheckpoints() || fs.Plan.FalseCP || !fs.cpsDescribeChain(post) {
 		return nil
 	}
 	banned := map[string]banman.Reason{}
